@@ -51,9 +51,11 @@ typedef struct varintBP128Meta {
 static inline size_t varintBP128MaxBytes(size_t count) {
     size_t fullBlocks = count / VARINT_BP128_BLOCK_SIZE;
     size_t remainder = count % VARINT_BP128_BLOCK_SIZE;
+    /* Prefix: varintBP128Encode64 writes the count and the delta encoders
+     * write the first value as a tagged varint (up to 9 bytes) */
     /* Each full block: 1 byte header + up to 128*8 bytes data */
     /* Partial block: 1 byte header + 1 byte count + up to remainder*8 bytes */
-    size_t bytes = fullBlocks * VARINT_BP128_MAX_BLOCK_BYTES;
+    size_t bytes = 9 + fullBlocks * VARINT_BP128_MAX_BLOCK_BYTES;
     if (remainder > 0) {
         bytes += 2 + remainder * 8; /* header + count + data */
     }
